@@ -477,7 +477,7 @@ fn limits_for(rng: &mut SplitMix) -> Vec<u32> {
 }
 
 pub fn run(ctx: &Ctx, started: Instant) -> i32 {
-    let packets_per_shard = ctx.tier.pick(1_500usize, 20_000);
+    let packets_per_shard = ctx.tier.pick(4_000usize, 40_000);
     let mut stats = par_shards(WORKERS, |shard| {
         let mut st = Stats::default();
         let pkts = gen_values(ctx.sub_seed("acks", shard), packets_per_shard, &strat::p5_acks());
